@@ -129,7 +129,10 @@ def run(module, cfg, workdir=None, workers=1, env=None, timeout=1800, extra=(), 
                 f.write(cfg)
         else:
             shutil.copy(cfg, cfgpath)
-        cmd = ["java", "-XX:+UseParallelGC", "-XX:+ExitOnOutOfMemoryError", "-Xss" + xss]
+        # single-worker runs (trace validation: 16 of them side by side) start with a small heap and the serial collector,
+        # so that a check's sixteen JVMs take a few hundred MB each instead of the default 1/64 of the machine's memory
+        gc = ["-XX:+UseSerialGC", "-Xms64m"] if workers == 1 else ["-XX:+UseParallelGC"]
+        cmd = ["java"] + gc + ["-XX:+ExitOnOutOfMemoryError", "-Xss" + xss]
         if heap is None:
             heap = "3g" if workers == 1 else "12g"
         cmd.append("-Xmx" + heap)
